@@ -107,6 +107,23 @@ func (w *World) checkC01(r *core.Run, rec *HopRec, now time.Time) {
 	p := st.Parsed
 	ok := st.CurValid && !st.CurExpired && (!st.Xover || (st.NextValid && !st.NextExpired))
 	forwarded := rec.Res.Disposition == router.VerifForward && !rec.Res.SlowPath
+	switch {
+	case forwarded:
+		r.Probe("c01-forwarded-valid-hop")
+		if st.Xover {
+			r.Probe("c01-forwarded-at-xover")
+		}
+	case st.CurExpired || (st.Xover && st.NextExpired):
+		r.Probe("c01-rejected-expired")
+		if st.Xover && st.NextExpired && !st.CurExpired {
+			r.Probe("c01-rejected-expired-next-segment-only")
+		}
+	case !st.CurValid || (st.Xover && !st.NextValid):
+		r.Probe("c01-rejected-bad-mac")
+		if st.Xover && !st.NextValid && st.CurValid {
+			r.Probe("c01-rejected-bad-mac-next-segment-only")
+		}
+	}
 	if forwarded && !ok {
 		r.Fail("c01-forwarded-invalid", "forwarded-invalid-hop",
 			"%s %s forwarded a packet whose hop fields do not validate: cur valid=%v expired=%v xover=%v next valid=%v expired=%v (currHF=%d in=%v)",
@@ -171,11 +188,8 @@ func (w *World) checkC07(r *core.Run, rec *HopRec) {
 				allowed[p.Infos[s].Off+3] = 0xff
 			}
 		}
-		for _, h := range []int{p.CurrHF, q.CurrHF, q.CurrHF - 1} {
-			if h >= 0 && h < len(p.Hops) {
-				allowed[p.Hops[h].Off] |= 0x03 // router alert flags
-			}
-		}
+		// router-alert flags change only when the router consumes the alert, and then the packet
+		// is answered, not forwarded: in a forwarded packet they must be untouched
 	case p.PathType == refmodel.PathOneHop:
 		allowed[p.OHInfo.Off+2], allowed[p.OHInfo.Off+3] = 0xff, 0xff
 		for i := 0; i < 12; i++ {
